@@ -40,6 +40,7 @@
     between the `=` and the `,` / `)` that ends the parameter, for every value of top-level
     shape of any length (commas and parentheses inside brackets are part of the value).
 -/
+import CxxModel.Theorems.InitPre
 import CxxModel.Theorems.Stream
 import CxxModel.Theorems.MethodEnd
 import CxxModel.Theorems.EnumList
@@ -173,6 +174,38 @@ theorem C14_default_argument (env : Env) (F D : Nat) (p : PItem) (ty : DType) (h
         (w', .ok (.mk ty (some p.name.value) (some (valueOf vals)) false, none)) ∧
       SameButLog w w' ∧ tokenEofOk env.cfg w'.buf = .ok (some t', b') ∧ t'.type = sep.type ∧ t'.value = sep.value :=
   parameter_default env F D p ty hok eq vals sep w bmid bq bv b' hy hte heq hyv htl htsep hsep hF hFv
+
+end
+
+
+section
+open P
+
+/-- **`S prefix x = value ;` through `parse()`'s loop**, any type specifier, any declarator prefix: exactly ONE `on_variable` whose
+    value is EXACTLY the tokens written between the `=` and the `;` (any value of top-level shape, any length) -/
+theorem C14_initializer_general (env : Env) (hp : RulesProgress env.cfg = true) (G D : Nat) (w : World)
+    (toks : List Tok) (first : Tok) (trest : List Tok) (segs : List PQSeg) (cst vol : Bool) (pre : List (String × String)) (ops : List Tok) (x eq : Tok) (vals : List Tok) (semi : Tok) (d1 : DType) (b1 b0 bmid bx bq bv b' : Buf)
+    (blk : Block) (rest : List Block) (hstack : w.stack = blk :: rest) (hk : blk.hdr.kind ≠ .cls)
+    (hmu : w.muted = false) (hfa : ¬ env.faultAt = some w.delivered)
+    (hspecT : TypeSpecR env (G + 1) D toks segs cst vol) (htoks : toks = first :: trest) (hfirst : specFirst first.type = true)
+    (htok : tokenEofOk env.cfg w.buf = .ok (some first, b1))
+    (hy0 : Yields env.cfg b1 trest b0)
+    (hhead : ∀ p ∈ pre.head?, declStart p.1 = true ∧ p.2 ≠ "auto")
+    (hy : Yields env.cfg b0 ops bmid)
+    (hpre : PrefixSpec env (G + 1) (D + 1) (.type (.mk segs none false) cst vol) pre d1) (hfn : isFnType d1 = false) (hops : tvs ops = pre)
+    (htx : tokenEofOk env.cfg bmid = .ok (some x, bx)) (hx : x.type = "NAME") (hxv : identVal x.value = true)
+    (hteq : tokenEofOk env.cfg bx = .ok (some eq, bq)) (heq : eq.type = "=")
+    (hyv : Yields env.cfg bq vals bv) (htl : TopLevel [",", ";"] (vals.map (·.type)))
+    (hsemi : tokenEofOk env.cfg bv = .ok (some semi, b')) (hs : semi.type = ";")
+    (hFv : vals.length + 1 ≤ G) :
+    ∃ (d : Option String) (bD : Buf) (w7 : World) (ct : CTok) (dox : Option String) (ev : Event),
+      getDoxygen env.cfg env.mcRe w.buf = .ok (d, bD) ∧
+      interp env (mainBody (G + 1) (core (G + 1) (D + 1 + 1)) none) w = (w7, .ok (.inl none)) ∧
+      SigEq b' w7.buf ∧ ct.value = first.value ∧ w7.stack = { blk with loc := .tok ct.sidx } :: rest ∧
+      w7.events = w.events ++ [ev] ∧ ev.kind = .item (.variable (initVariable x d1 vals dox)) ∧
+      ev.stateId = blk.id ∧ ev.parentId = rest.head?.map (·.id) ∧ (∀ dd, d = some dd → dox = some dd) ∧
+      w7.delivered = w.delivered + 1 ∧ w7.anon = w.anon ∧ w7.muted = false ∧ w7.nextId = w.nextId :=
+  toplevel_variable_init_pre env hp G D w toks first trest segs cst vol pre ops x eq vals semi d1 b1 b0 bmid bx bq bv b' blk rest hstack hk hmu hfa hspecT htoks hfirst htok hy0 hhead hy hpre hfn hops htx hx hxv hteq heq hyv htl hsemi hs hFv
 
 end
 
